@@ -42,6 +42,11 @@ def oracle_cases(tier, rng):
                     for hw in [(8, 8), (16, 24)] + ([(7, 8), (8, 15), (15, 7)] if kind == 'gauss' and bias == 1e-2 else []):
                         if b in ('near_sym_a', 'near_sym_b_bp'):
                             yield dict(layer=2, check='ref', biort=b, qshift=q, colour=colour, bias=bias, kind=kind, H=hw[0], W=hw[1], seed=int(rng.integers(1 << 30)))
+    # the second-order layer with EVERY q-shift family (qshift_06 is stored zero padded) and every plain biort
+    for q in ('qshift_06', 'qshift_a', 'qshift_b', 'qshift_c', 'qshift_d'):
+        for b in (('near_sym_a', 'legall') if tier == 'quick' else ('near_sym_a', 'legall', 'antonini', 'near_sym_b')):
+            for colour in ((0,) if tier == 'quick' else (0, 1)):
+                yield dict(layer=2, check='ref', biort=b, qshift=q, colour=colour, bias=1e-2, kind='gauss', H=16, W=24, seed=int(rng.integers(1 << 30)))
     for H in range(2, 20 if tier == 'quick' else 40):
         for W in (8, 9, 13):
             yield dict(layer=1, check='shape', biort='near_sym_a', qshift='qshift_a', colour=0, bias=1e-2, kind='gauss', H=H, W=W, seed=int(rng.integers(1 << 30)))
